@@ -13,7 +13,7 @@ from .common import ckey
 P = "C12"
 SOCK = "pycomm3.socket_"
 EXPLANATION = (
-    "Static rules D12.1-D12.5 (DESIGN.md section 5, C12) on Socket.receive / Socket.send and their helpers: every recv "
+    "Static rules D12.1-D12.6 (DESIGN.md section 5, C12) on Socket.receive / Socket.send and their helpers: every recv "
     "chunk that is accumulated is proven non-empty or CommError is raised (directly or through a helper whose summary is "
     "'returns non-empty or raises'), the length-field read is dominated by a test that at least the length field was "
     "received, the completion condition is len(data) < HEADER_SIZE + <LE UINT at offset 2> in canonical linear form with "
@@ -138,8 +138,11 @@ def d12_2(ctx):
                 if k == -1 and L.const >= need and g.branch_dominates(t, True, node):
                     guard = (t, L.const)
         key = ckey(f"{SOCK}:Socket.receive", "length-read")
-        if guard:
-            ctx.ok(key, u, f"dominated by `{src(guard[0].ast)}` guaranteeing {guard[1]} >= {need} bytes", need=need)
+        hs = ctx.spec("encap")["header"]["size"]
+        if guard and guard[1] > hs:
+            ctx.violation(key, u, f"`{src(guard[0].ast)}` waits for {guard[1]} bytes before the length field is read, but a frame without payload is exactly {hs} bytes long: such a reply (e.g. an error reply) is never returned", need=need, waits_for=guard[1])
+        elif guard:
+            ctx.ok(key, u, f"dominated by `{src(guard[0].ast)}` guaranteeing {guard[1]} >= {need} bytes (and not more than the {hs}-byte header)", need=need)
         else:
             ctx.violation(key, u, f"`{src(u)}` needs {need} bytes of `{buf}` but no dominating test guarantees them: a first chunk shorter than {need} bytes raises struct.error (not CommError)", need=need)
 
@@ -341,3 +344,37 @@ def d12_5(ctx):
     lc = cmp_norm(loops[0].test) if len(loops) == 1 else None
     ctx.check(lc is not None and lc[0] == "<=0" and lc[1] == want, ckey(base, "condition"), loops[0] if loops else fn, f"loops while {acc} < len({msg})",
               f"loop condition `{src(loops[0].test) if loops else None}` is not `{acc} < len({msg})`: the last bytes are not sent or the loop never ends", got=repr(lc[1]) if lc else None)
+
+
+@rule(P, "D12.6", "T-PROGRESS", floor=2)
+def d12_6(ctx):
+    """Every loop of receive that waits for more bytes appends a received chunk to the buffer on every pass: a pass that adds
+    nothing repeats for ever (chunks are non-empty by D12.1, so each pass makes progress towards the bound)."""
+    cls = ctx.model.cls(f"{SOCK}:Socket")
+    fn = cls.methods.get("receive")
+    g = ctx.cfg(fn)
+    rets = [r for r in walk(fn) if isinstance(r, ast.Return) and r.value is not None]
+    buf = atom_name(rets[0].value) if rets else None
+    n = 0
+    for lp in [x for x in walk(fn) if isinstance(x, ast.While)]:
+        names = {atom_name(x) for x in walk(lp.test)}
+        counters = {atom_name(x.target) for x in walk(lp) if isinstance(x, ast.AugAssign)}
+        if buf is None or not (f"len({buf})" in names or names & counters):
+            continue
+        n += 1
+        tests = g.nodes_of(lp.test) or g.nodes_of(lp)
+        grow = {x for x in g.nodes if x.kind == "stmt" and isinstance(x.ast, (ast.AugAssign, ast.Assign)) and any(x.ast is y for y in walk(lp))
+                and ((isinstance(x.ast, ast.AugAssign) and isinstance(x.ast.op, ast.Add) and atom_name(x.ast.target) == buf)
+                     or (isinstance(x.ast, ast.Assign) and atom_name(x.ast.targets[0]) == buf and isinstance(x.ast.value, ast.BinOp) and isinstance(x.ast.value.op, ast.Add) and atom_name(x.ast.value.left) == buf)
+                     or (isinstance(x.ast, ast.Assign) and atom_name(x.ast.targets[0]) == buf and isinstance(x.ast.value, ast.Call) and any(atom_name(a) == buf for a in x.ast.value.args)))}
+        key = ckey(f"{SOCK}:Socket.receive", f"progress@{'header' if n == 1 else 'body' if n == 2 else n}")
+        if not tests:
+            ctx.undecided(key, lp, "loop head not found in the flow graph")
+            continue
+        head = tests[0]
+        starts = [s_ for s_, lab in head.succ if lab is True]
+        wit = None
+        for s_ in starts:
+            wit = wit or (None if s_ in grow else g.must_pass(grow, start=s_, sinks={head}, avoid_edges=lambda a, b, lab: lab == "exc"))
+        ctx.check(bool(grow) and wit is None and bool(starts), key, lp, f"every pass of `while {src(lp.test)}` appends to `{buf}`",
+                  f"a pass through `while {src(lp.test)}` can return to the loop head without appending to `{buf}`: with fewer bytes than awaited the loop never ends")
